@@ -75,7 +75,7 @@ def run(ctx):
             stores.get("grid_level[xa:xo, ya:yo]") == "out['level']"
         e = [norm(n) for n in ast.walk(inner[0]) if isinstance(n, ast.Assign)] if inner else []
         okk = okk and "xa, xo = out['sx']" in e and "ya, yo = out['sy']" in e
-        fl = [n for n in ast.walk(inner[0]) if isinstance(n, ast.For) and norm(n.iter) == "range(self.nfidxs)"] if inner else []
+        fl = [n for n in ast.walk(inner[0]) if isinstance(n, ast.For) and rules.is_count_range(n.iter, "self.nfidxs", ("all_data", "out['data']"))] if inner else []
         ctx.check(okk and len(fl) == 1, f"{P}.STORE", pl.site,
                   "field i of a box is stored into buffer i over the box's (sx, sy) span; grid_level gets the box's level",
                   f"stores are {stores}", where=loc(pl, red))
